@@ -510,4 +510,300 @@ theorem stored_fields (p : Pin) :
     p.stored.cid = p.cid ∧ p.stored.type = p.type ∧ p.stored.depth = p.depth ∧ p.stored.allocs = p.allocs ∧
     p.stored.opts.mode = depthToMode p.depth := ⟨rfl, rfl, rfl, rfl, rfl⟩
 
+/-! ### tracker calls of the model -/
+
+theorem tracker_core (ops : List Op) (r : Replica) (hw : r.store.wf = true) (op : Op)
+    (hop : ops[r.applied]? = some op) (i : Nat) :
+    trackerOk ops { rep := i, ev := .apply, res := .ok, applied := r.applied + 1,
+                    view := .pins (applyOp r.store op), calls := [callOf op] } = true := by
+  unfold trackerOk isAck
+  dsimp only
+  have h1 : r.applied + 1 - 1 = r.applied := by omega
+  simp only [beq_self_eq_true, Bool.and_self, if_true, h1, hop]
+  cases op with
+  | pin p =>
+    have hg : (applyOp r.store (.pin p)).get p.cid = some p.stored := by
+      show (PinMap.put p.stored r.store).get p.cid = some p.stored
+      rw [get_put hw]
+      simp [Pin.stored]
+    simp only [callOf, hg]
+    have hm : (!modeAgrees p || p.opts.mode == p.stored.opts.mode) = true := by
+      cases hma : modeAgrees p with
+      | false => rfl
+      | true =>
+        have : p.opts.mode = depthToMode p.depth := by simpa [modeAgrees] using hma
+        simp [Pin.stored, this]
+    simp [Pin.stored] at hm ⊢
+    exact hm
+  | unpin p =>
+    have hg : (applyOp r.store (.unpin p)).get p.cid = none := by
+      show (PinMap.erase r.store p.cid).get p.cid = none
+      rw [get_erase]
+      simp
+    simp [callOf, hg]
+
+theorem no_other_calls_core (ops : List Op) (r : Replica) (src : Option Snap) (e : Ev) :
+    (stepR ops r src e).2.calls ≠ [] → e = .apply ∧ (stepR ops r src e).2.res = .ok := by
+  intro h
+  cases e with
+  | apply =>
+    refine ⟨rfl, ?_⟩
+    unfold stepR at h ⊢
+    dsimp only at h ⊢
+    by_cases hup : (!r.up) = true
+    · rw [if_pos hup] at h; exact absurd rfl h
+    · rw [if_neg hup] at h ⊢
+      cases hop : ops[r.applied]? with
+      | none => rw [hop] at h; exact absurd rfl h
+      | some op =>
+        rw [hop] at h
+        dsimp only at h ⊢
+        by_cases hd : (!op.decodable) = true
+        · rw [if_pos hd] at h; exact absurd rfl h
+        · rw [if_neg hd] at h ⊢
+          by_cases hp : (r.poisoned && op.isPin) = true
+          · rw [if_pos hp] at h; exact absurd rfl h
+          · rw [if_neg hp]
+  | snapBegin =>
+    exfalso; apply h; unfold stepR; dsimp only
+    split <;> [rfl; (split <;> rfl)]
+  | snapPersist =>
+    exfalso; apply h; unfold stepR; dsimp only
+    split
+    · rfl
+    · split <;> rfl
+  | install j =>
+    exfalso; apply h; unfold stepR; dsimp only
+    split
+    · rfl
+    · split
+      · rfl
+      · split <;> rfl
+  | shutdown =>
+    exfalso; apply h; unfold stepR; dsimp only
+    split
+    · rfl
+    · split <;> rfl
+  | kill =>
+    exfalso; apply h; unfold stepR; dsimp only
+    split <;> rfl
+  | restart =>
+    exfalso; apply h; unfold stepR; dsimp only
+    split
+    · rfl
+    · split <;> rfl
+  | offline => exfalso; apply h; rfl
+
+/-! ### the model's own observations satisfy the Spec clauses -/
+
+/-- the observation the model predicts for event `e` on peer `i` in state `s` -/
+def obsOf (ops : List Op) (s : Sys) (i : Nat) (e : Ev) : Obs :=
+  let so := step ops s i e
+  let r' := (so.1[i]?).getD {}
+  { rep := i, ev := e, res := so.2.res, applied := (observe r' e).2, view := (observe r' e).1, calls := so.2.calls }
+
+def modelTrace (ops : List Op) : Sys → List (Nat × Ev) → List Obs
+  | _, [] => []
+  | s, (i, e) :: rest => obsOf ops s i e :: modelTrace ops (step ops s i e).1 rest
+
+theorem specReplay_eq (ops : List Op) : specReplay ops = replay ops := by
+  have h : specApply = applyOp := by
+    funext m o
+    cases o <;> rfl
+  unfold specReplay replay
+  rw [h]
+
+theorem sameMap_self (m : PinMap) : sameMap m m = true := by
+  unfold sameMap
+  exact beq_self_eq_true _
+
+theorem prefixResult_self (ops : List Op) (lo hi a : Nat) (h1 : lo ≤ a) (h2 : a ≤ hi) :
+    isPrefixResult ops lo hi (replay (ops.take a)) = true := by
+  unfold isPrefixResult
+  rw [List.any_eq_true]
+  refine ⟨a - lo, ?_, ?_⟩
+  · rw [List.mem_range]; omega
+  · have : lo + (a - lo) = a := by omega
+    rw [this, specReplay_eq]
+    exact sameMap_self _
+
+theorem observe_good {ops : List Op} {r : Replica} (h : RInv true ops r) (e : Ev) :
+    (observe r e).1 = .down ∨
+    ((observe r e).1 = .pins (replay (ops.take (observe r e).2)) ∧ (observe r e).2 ≤ ops.length) := by
+  have hlive : r.up = true → (r.view = .pins (replay (ops.take r.applied)) ∧ r.applied ≤ ops.length) := by
+    intro hup
+    rw [view_of_inv h hup, ← good_exact h.good]
+    exact ⟨rfl, h.good.2.1⟩
+  have hdead : r.up = false → r.view = .down := by
+    intro hup
+    unfold Replica.view
+    simp [hup]
+  have hgen : r.view = .down ∨ (r.view = .pins (replay (ops.take r.applied)) ∧ r.applied ≤ ops.length) := by
+    cases hup : r.up with
+    | true => exact Or.inr (hlive hup)
+    | false => exact Or.inl (hdead hup)
+  cases e with
+  | offline =>
+    unfold observe
+    dsimp only
+    cases hup : r.up with
+    | true => simpa using Or.inr (hlive hup)
+    | false =>
+      right
+      simp only [Bool.false_eq_true, if_false]
+      unfold Replica.offlineView Replica.offlineIdx
+      cases hn : newest r.snaps with
+      | none => simp [replay]
+      | some sn =>
+        have hg := h.snaps sn (newest_mem hn)
+        simp only [Option.map_some, Option.getD_some]
+        exact ⟨by rw [← good_exact hg], hg.2.1⟩
+  | apply => exact hgen
+  | snapBegin => exact hgen
+  | snapPersist => exact hgen
+  | install j => exact hgen
+  | shutdown => exact hgen
+  | kill => exact hgen
+  | restart => exact hgen
+
+def mkObs (i : Nat) (e : Ev) (p : Replica × StepOut) : Obs :=
+  { rep := i, ev := e, res := p.2.res, applied := (observe p.1 e).2, view := (observe p.1 e).1, calls := p.2.calls }
+
+theorem obsOf_eq {ops : List Op} {s : Sys} {i : Nat} {r : Replica} (hr : s[i]? = some r) (e : Ev) :
+    obsOf ops s i e = mkObs i e (stepR ops r (srcSnapOf s e) e) := by
+  have h1 := step_at (ops := ops) hr e
+  unfold obsOf mkObs
+  dsimp only
+  rw [h1]
+  have h2 : (step ops s i e).2 = (stepR ops r (srcSnapOf s e) e).2 := by
+    unfold step
+    rw [hr]
+  rw [h2]
+  rfl
+
+/-- with decodable entries and a clean FSM an apply is acknowledged or there is nothing to apply -/
+theorem apply_res {ops : List Op} (hdec : allDecodable ops) {r : Replica} (hp : r.poisoned = false) (src : Option Snap) :
+    (stepR ops r src .apply).2.res = .ok ∨ (stepR ops r src .apply).2.res = .noop := by
+  unfold stepR
+  dsimp only
+  by_cases hup : (!r.up) = true
+  · rw [if_pos hup]; exact Or.inr rfl
+  · rw [if_neg hup]
+    cases hop : ops[r.applied]? with
+    | none => exact Or.inr rfl
+    | some op =>
+      have hd : op.decodable = true := hdec op (List.mem_of_getElem? hop)
+      simp [hd, hp]
+
+/-- clauses of a non-acknowledging observation which shows nothing or an exact prefix -/
+theorem quiet_clauses (ops : List Op) (o : Obs) (hnoack : isAck o = false) (hcalls : o.calls = [])
+    (happ : appliedOk o = true)
+    (hobs : o.view = .down ∨ (o.view = .pins (replay (ops.take o.applied)) ∧ o.applied ≤ ops.length)) :
+    prefixOk ops o = true ∧ caughtUpOk ops o = true ∧ ackVisibleOk ops o = true ∧ ackDurableOk ops o = true ∧
+    trackerOk ops o = true ∧ appliedOk o = true := by
+  have htr : trackerOk ops o = true := by
+    unfold trackerOk
+    rw [hnoack]
+    simp [hcalls]
+  rcases hobs with hd | ⟨hv, hle⟩
+  · refine ⟨?_, ?_, ?_, ?_, htr, happ⟩
+    · unfold prefixOk; rw [hd]
+    · unfold caughtUpOk; rw [hd]
+    · unfold ackVisibleOk; rw [hnoack]; rfl
+    · unfold ackDurableOk; rw [hd]
+  · refine ⟨?_, ?_, ?_, ?_, htr, happ⟩
+    · unfold prefixOk; rw [hv]
+      exact prefixResult_self ops 0 ops.length _ (Nat.zero_le _) hle
+    · unfold caughtUpOk; rw [hv]
+      by_cases hall : o.applied = ops.length
+      · rw [hall, List.take_length, specReplay_eq]; simp [sameMap_self]
+      · simp [hall]
+    · unfold ackVisibleOk; rw [hnoack]; rfl
+    · unfold ackDurableOk; rw [hv]
+      exact prefixResult_self ops _ ops.length _ (Nat.le_refl _) hle
+
+theorem obs_clauses {ops : List Op} (hdec : allDecodable ops) {s : Sys} (hs : SInv true ops s) {i : Nat} {r : Replica}
+    (hr : s[i]? = some r) (e : Ev) (hat : atomicStep s i e = true) :
+    prefixOk ops (obsOf ops s i e) = true ∧ caughtUpOk ops (obsOf ops s i e) = true ∧
+    ackVisibleOk ops (obsOf ops s i e) = true ∧ ackDurableOk ops (obsOf ops s i e) = true ∧
+    trackerOk ops (obsOf ops s i e) = true ∧ appliedOk (obsOf ops s i e) = true := by
+  have hrinv : RInv true ops r := hs r (List.mem_of_getElem? hr)
+  have hr' : RInv true ops (stepR ops r (srcSnapOf s e) e).1 :=
+    stepR_inv hdec hrinv _ (srcSnap_good hs e) e (atomicStep_ok hr true (fun _ => hat))
+  have hobs := observe_good hr' e
+  rw [obsOf_eq hr e]
+  by_cases hack : e = .apply ∧ (stepR ops r (srcSnapOf s e) e).2.res = .ok
+  · -- an acknowledged apply
+    obtain ⟨he, hok⟩ := hack
+    subst he
+    obtain ⟨hup, op, hop, hstep⟩ := apply_ok hok
+    have hth := tracker_core ops r hrinv.good.1 op hop
+    rw [hstep] at hr' ⊢
+    have hview := view_of_inv hr' hup
+    have hex := good_exact hr'.good
+    have hle := hr'.good.2.1
+    dsimp only at hview hex hle
+    have hobs_eq : mkObs i .apply
+        ({ r with store := applyOp r.store op, initialized := true, poisoned := false, applied := r.applied + 1 },
+         { res := .ok, calls := [callOf op] }) =
+        { rep := i, ev := .apply, res := .ok, applied := r.applied + 1, view := .pins (applyOp r.store op),
+          calls := [callOf op] } := by
+      unfold mkObs observe
+      dsimp only
+      rw [hview]
+    rw [hobs_eq]
+    refine ⟨?_, ?_, ?_, ?_, ?_, ?_⟩
+    · unfold prefixOk; dsimp only; rw [hex]; exact prefixResult_self ops 0 ops.length _ (Nat.zero_le _) hle
+    · unfold caughtUpOk; dsimp only
+      by_cases hall : r.applied + 1 = ops.length
+      · rw [hex, hall, List.take_length, specReplay_eq]; simp [sameMap_self]
+      · simp [hall]
+    · unfold ackVisibleOk isAck; dsimp only
+      rw [hex]
+      simp [prefixResult_self ops (r.applied + 1) ops.length _ (Nat.le_refl _) hle]
+    · unfold ackDurableOk; dsimp only; rw [hex]
+      exact prefixResult_self ops (r.applied + 1) ops.length _ (Nat.le_refl _) hle
+    · exact hth i
+    · unfold appliedOk; simp
+  · -- everything else: no tracker calls, the observation is a prefix result
+    apply quiet_clauses
+    · unfold isAck mkObs
+      dsimp only
+      by_cases he : e = .apply
+      · have : (stepR ops r (srcSnapOf s e) e).2.res ≠ .ok := fun h => hack ⟨he, h⟩
+        simp [he] at this ⊢
+        exact this
+      · simp [he]
+    · by_contra hne
+      exact hack (no_other_calls_core ops r _ e hne)
+    · unfold appliedOk mkObs
+      dsimp only
+      by_cases he : e = .apply
+      · subst he
+        rcases apply_res hdec hrinv.poison (srcSnapOf s .apply) with h | h <;> simp [h]
+      · simp [he]
+    · exact hobs
+
+theorem modelTrace_clauses {ops : List Op} (hdec : allDecodable ops) (evs : List (Nat × Ev)) {s : Sys}
+    (hs : SInv true ops s) (hat : atomicRun ops s evs = true) (hidx : ∀ ie ∈ evs, ie.1 < s.length) :
+    ∀ o ∈ modelTrace ops s evs,
+      prefixOk ops o = true ∧ caughtUpOk ops o = true ∧ ackVisibleOk ops o = true ∧ ackDurableOk ops o = true ∧
+      trackerOk ops o = true ∧ appliedOk o = true := by
+  induction evs generalizing s with
+  | nil => intro o ho; cases ho
+  | cons ie rest ih =>
+    obtain ⟨i, e⟩ := ie
+    unfold atomicRun at hat
+    obtain ⟨h1, h2⟩ := Bool.and_eq_true_iff.1 hat
+    have hi : i < s.length := hidx (i, e) List.mem_cons_self
+    obtain ⟨r, hr⟩ : ∃ r, s[i]? = some r := ⟨s[i], List.getElem?_eq_getElem hi⟩
+    intro o ho
+    unfold modelTrace at ho
+    rcases List.mem_cons.1 ho with rfl | ho
+    · exact obs_clauses hdec hs hr e h1
+    · refine ih (step_inv hdec hs i e (fun _ => h1)) h2 ?_ o ho
+      intro ie hie
+      rw [step_length]
+      exact hidx ie (List.mem_cons_of_mem _ hie)
+
 end CV.C01
